@@ -1423,8 +1423,195 @@ def run_reuse(case):
     return bad, lines, cmps, info
 
 
-RUNNERS = {'sep': run_sep, 'uns': run_uns, 'bin': run_bin, 'ss': run_ss, 'scale': run_scale, 'reuse': run_reuse}
-GENS = {'sep': gen_sep, 'uns': gen_uns, 'bin': gen_bin, 'ss': gen_ss, 'scale': gen_scale, 'reuse': gen_reuse}
+# ---------------------------------------------------------------------------------------------
+# family `sys` (C18-11): grids that are NOT CartesianGrid objects -- PolarGrid and the base class Grid, with RegularCoords and
+# SeparatedCoords -- through every resampling entry point.  Clause: the sub-grids / derived grids keep the coordinate system
+# (class) of the grid they were derived from; a generator that consults the coordinate system (grid.as_('polar'), .r, .theta)
+# then sees an affine function of (r, theta) supersampled to its direct evaluation.
+
+GRID_CLASSES = ['polar', 'polar', 'polar', 'base', 'cartesian']
+
+
+def gen_sys(rng, big):
+    regular = bool(rng.random() < 0.6)
+    n = [int(rng.integers(2, 5 if not big else 7)) for _ in range(2)]
+    if regular:
+        r0, dr = dyadic(rng, 0.25, 2, 2), float(rng.choice([0.25, 0.5, 1.0]))
+        t0, dt = dyadic(rng, -2, 0, 3), float(rng.choice([0.125, 0.25, 0.5]))
+        axes = [[r0 + i * dr for i in range(n[0])], [t0 + i * dt for i in range(n[1])]]
+    else:
+        axes = [np.cumsum([dyadic(rng, 0.25, 2, 2)] + [float(rng.choice([0.25, 0.5, 1.0, 1.5])) for _ in range(n[0] - 1)]).tolist(),
+                np.cumsum([dyadic(rng, -2, 0, 3)] + [float(rng.choice([0.125, 0.25, 0.5, 0.375])) for _ in range(n[1] - 1)]).tolist()]
+    c0, c = affine_coeffs(rng, 2)
+    quad = [0.0, 0.0] if rng.random() < 0.6 else [dyadic(rng, -2, 2, 1) for _ in range(2)]
+    ns = [int(rng.integers(1, 4)) for _ in range(2)]
+    scalar_n = bool(rng.random() < 0.5)
+    if scalar_n:
+        ns = [ns[0]] * 2
+    return {'fam': 'sys', 'cls': str(rng.choice(GRID_CLASSES)), 'regular': regular, 'axes': axes, 'c0': c0, 'c': c, 'q': quad, 'ns': ns, 'scalar_n': scalar_n,
+            'stat': str(rng.choice(['mean', 'mean', 'sum'])), 'access': str(rng.choice(['as_polar', 'r-theta', 'coords'])),
+            'vals': [dyadic(rng, -4, 4, 2) for _ in range(n[0] * ns[0] * n[1] * ns[1])]}
+
+
+def make_sys_grid(cls, axes, regular):
+    import hcipy
+    if regular:
+        co = hcipy.RegularCoords([a[1] - a[0] for a in axes], [len(a) for a in axes], [a[0] for a in axes])
+    else:
+        co = hcipy.SeparatedCoords([np.array(a, dtype=float) for a in axes])
+    return {'polar': hcipy.PolarGrid, 'base': hcipy.Grid, 'cartesian': hcipy.CartesianGrid}[cls](co)
+
+
+def same_system(g, grid):
+    return type(g) is type(grid)
+
+
+def run_sys(case):
+    import hcipy
+    bad, lines, cmps = [], [], []
+    cls, axes = case['cls'], case['axes']
+    info = {'entries': []}
+    try:
+        grid = make_sys_grid(cls, axes, case['regular'])
+    except Exception as e:  # noqa
+        return [('grid-raises', 'constructing a %s grid raised %s' % (cls, type(e).__name__))], lines, cmps, info
+    c0, c, q = case['c0'], case['c'], case['q']
+    wrong = []
+
+    subs = []
+
+    def gen(g):
+        if not same_system(g, grid):
+            wrong.append(type(g).__name__)
+        try:
+            subs.append(({'PolarGrid': 'polar', 'CartesianGrid': 'cartesian', 'Grid': 'base'}.get(type(g).__name__, type(g).__name__),
+                         [[float(v) for v in a] for a in g.separated_coords]))
+        except Exception:  # noqa
+            subs.append((type(g).__name__, None))
+        if cls == 'polar' and case['access'] == 'as_polar':
+            pg = g.as_('polar')
+            co = [np.asarray(pg.coords[0]), np.asarray(pg.coords[1])]
+        elif cls == 'polar' and case['access'] == 'r-theta':
+            co = [np.asarray(g.r), np.asarray(g.theta)]
+        elif cls == 'cartesian' and case['access'] != 'coords':
+            cg = g.as_('cartesian')
+            co = [np.asarray(cg.x), np.asarray(cg.y)]
+        else:
+            co = [np.asarray(g.coords[k]) for k in range(2)]
+        v = c0 + sum(ck * xk for ck, xk in zip(c, co)) + sum(qk * xk * xk for qk, xk in zip(q, co))
+        return hcipy.Field(v, g)
+    ns = case['ns']
+    arg = ns[0] if case['scalar_n'] else ns
+    what = '%s(%s)' % ({'polar': 'PolarGrid', 'base': 'Grid', 'cartesian': 'CartesianGrid'}[cls], 'RegularCoords' if case['regular'] else 'SeparatedCoords')
+    cnt = int(np.prod(ns))
+    pts = grid_points(axes)
+    # (a) evaluate_supersampled
+    try:
+        res = hcipy.evaluate_supersampled(gen, grid, arg, statistic=case['stat'])
+        got = to_list(res)
+        if wrong:
+            bad.append(('supersampled-subgrid-system', 'evaluate_supersampled on a %s hands the generator %d sub-grids of class %s: the dithered sub-grids do not keep the coordinate system'
+                        % (what, len(wrong), wrong[0])))
+        if getattr(res, 'grid', None) is not grid or len(got) != len(pts):
+            bad.append(('supersampled-grid', 'supersampled evaluation on a %s is not a Field of the requested grid' % what))
+        elif all(x == 0 for x in q):
+            want = [aff(c0, c, p_) * (cnt if case['stat'] == 'sum' else 1) for p_ in pts]
+            err = cmp_vals(got, want)
+            if err is None or err > TOL:
+                bad.append(('supersampled-affine', 'supersampled evaluation (%s, oversampling %r) on a %s of a function affine in the grid coordinates (read through %s) differs from its direct evaluation'
+                            % (case['stat'], arg, what, case['access'])))
+        else:
+            err = cmp_vals(got, ss_reference(axes, c0, c, q, ns, case['stat']))
+            if err is None or err > TOL:
+                bad.append(('supersampled-value', 'supersampled evaluation (%s, oversampling %r) on a %s of a quadratic function differs from the mean over the dithered sub-pixels' % (case['stat'], arg, what)))
+        if not bad:
+            lines.append('C18 ss %s %s %s %s %s %s' % (case['stat'], rat(c0), rat_list(c), rat_list(q), rat_lists(axes), '[' + ','.join(str(n) for n in ns) + ']'))
+            cmps.append(('ss', got, {}))
+            # the sub-grids the generator was handed, against the model's `subGrids` (class and coordinates of every one)
+            lines.append('C18 subgrids %s %s %s' % (cls, rat_lists(axes), '[' + ','.join(str(n) for n in ns) + ']'))
+            cmps.append(('subgrids', subs, {}))
+            info['subgrids'] = len(subs)
+        info['entries'].append('evaluate_supersampled')
+    except Exception as e:  # noqa
+        bad.append(('supersampled-raises', 'evaluate_supersampled on a %s (generator reading the coordinates through %s) raised %s: %s' % (what, case['access'], type(e).__name__, str(e)[:100])))
+    # (b) make_supersampled_grid / make_subsampled_grid / subsample_field (regular grids only: NotImplementedError otherwise)
+    if case['regular'] and not bad:
+        try:
+            sg = hcipy.make_supersampled_grid(grid, arg)
+            back = hcipy.make_subsampled_grid(sg, arg)
+            if not same_system(sg, grid) or not same_system(back, grid):
+                bad.append(('resampled-grid-system', 'make_supersampled_grid / make_subsampled_grid of a %s return %s / %s: the coordinate system is not kept'
+                            % (what, type(sg).__name__, type(back).__name__)))
+            else:
+                fine = [[float(v) for v in cc] for cc in sg.separated_coords]
+                zero, delta, dims = [float(z) for z in grid.zero], [float(d) for d in grid.delta], [int(d) for d in grid.dims]
+                okay = bool(sg.is_regular) and [int(d) for d in sg.dims] == [d * n for d, n in zip(dims, ns)]
+                for k in range(2 if okay else 0):
+                    want = [fr(zero[k]) + i * fr(delta[k]) + fr(delta[k]) * (Fraction(2 * j + 1, 2 * ns[k]) - Fraction(1, 2)) for i in range(dims[k]) for j in range(ns[k])]
+                    err = cmp_vals(fine[k], want, scale=abs(delta[k]))
+                    okay = okay and err is not None and err <= TOL
+                coarse = [[float(v) for v in cc] for cc in back.separated_coords]
+                for k in range(2 if okay else 0):
+                    err = cmp_vals(coarse[k], frl(axes[k]), scale=abs(delta[k]))
+                    okay = okay and err is not None and err <= TOL
+                if not okay:
+                    bad.append(('supersampled-grid-points', 'make_supersampled_grid(%s, %r) / make_subsampled_grid back: not the dithered sub-pixel positions / not the original points' % (what, arg)))
+                else:
+                    lines.append('C18 supergrid %s %s %s %s' % (rat_list(zero), rat_list(delta), '[' + ','.join(str(d) for d in dims) + ']', '[' + ','.join(str(n) for n in ns) + ']'))
+                    cmps.append(('supergrid', fine, {'scales': [abs(d) for d in delta]}))
+                    info['entries'].append('make_supersampled_grid')
+                    vals = case['vals'][:sg.size]
+                    f = hcipy.Field(np.array(vals, dtype=float), sg)
+                    for give in (False, True):
+                        b = hcipy.subsample_field(f, arg, new_grid=grid if give else None, statistic='sum')
+                        bg = getattr(b, 'grid', None)
+                        if bg is None or not same_system(bg, grid) or (give and bg is not grid):
+                            bad.append(('binned-grid-system', 'subsample_field of a field on a supersampled %s (%s) returns a field on a %s'
+                                        % (what, 'new_grid given' if give else 'new_grid derived', type(bg).__name__)))
+                            break
+                        want = brute_bins(frl(vals), dims, ns)
+                        err = cmp_vals(to_list(b), want)
+                        if err is None or err > TOL:
+                            bad.append(('binning-value', 'sum-binning by %r of a field on a supersampled %s differs from the brute-force bins' % (arg, what)))
+                            break
+                    if not bad:
+                        lines.append('C18 bins sum %s %s %s' % ('[' + ','.join(str(n) for n in ns[::-1]) + ']', '[' + ','.join(str(d) for d in dims[::-1]) + ']', rat_list(vals)))
+                        cmps.append(('bins', to_list(b), {}))
+                        info['entries'].append('subsample_field')
+        except Exception as e:  # noqa
+            bad.append(('resampling-raises', 'make_supersampled_grid / make_subsampled_grid / subsample_field on a %s raised %s: %s' % (what, type(e).__name__, str(e)[:100])))
+    # (c) the interpolators: source = this grid, evaluation grid of the same class; the result lives on the evaluation grid object
+    if not bad:
+        try:
+            src = hcipy.Field(np.array([float(aff(c0, c, p_)) for p_ in pts]), grid)
+            ex = sorted(set(axes[0] + [(a + b) / 2 for a, b in zip(axes[0], axes[0][1:])]))
+            ey = sorted(set(axes[1] + [(a + b) / 2 for a, b in zip(axes[1], axes[1][1:])]))
+            ev = type(grid)(hcipy.SeparatedCoords([np.array(ex), np.array(ey)]))
+            epts = grid_points([ex, ey])
+            for name, mk in (('linear', hcipy.make_linear_interpolator), ('nearest', hcipy.make_nearest_interpolator)):
+                out = mk(src)(ev)
+                if getattr(out, 'grid', None) is not ev:
+                    bad.append(('interpolated-grid-system', '%s interpolator of a field on a %s: the result does not live on the evaluation grid object' % (name, what)))
+                    break
+                if name == 'linear':
+                    err = cmp_vals(to_list(out), [aff(c0, c, p_) for p_ in epts])
+                    if err is None or err > TOL:
+                        bad.append(('sep-linear', 'linear interpolator on a %s does not reproduce a function affine in the grid coordinates' % what))
+                        break
+                else:
+                    knots = [i for i, p_ in enumerate(epts) if p_[0] in axes[0] and p_[1] in axes[1]]
+                    o = to_list(out)
+                    if any(abs(o[i] - float(aff(c0, c, epts[i]))) > TOL * max(1.0, abs(float(aff(c0, c, epts[i])))) for i in knots):
+                        bad.append(('sep-nearest', 'nearest interpolator on a %s does not return the sample values at the sample points' % what))
+                        break
+            info['entries'].append('interpolators')
+        except Exception as e:  # noqa
+            bad.append(('interpolator-raises', 'interpolating a field on a %s raised %s: %s' % (what, type(e).__name__, str(e)[:100])))
+    return bad, lines, cmps, info
+
+
+RUNNERS = {'sys': run_sys, 'sep': run_sep, 'uns': run_uns, 'bin': run_bin, 'ss': run_ss, 'scale': run_scale, 'reuse': run_reuse}
+GENS = {'sys': gen_sys, 'sep': gen_sep, 'uns': gen_uns, 'bin': gen_bin, 'ss': gen_ss, 'scale': gen_scale, 'reuse': gen_reuse}
 
 
 DIRECTED = [
@@ -1562,6 +1749,12 @@ def check_case(ctx, case, all_lines, index):
                 if stp['inplace']:
                     ctx.count('reuse:old-interpolator-on-the-same-evaluation-grid-object-changed-in-place:' + stp['op'][0])
         sig = (fam, info['kind'], info['ekind'], tuple((t['target'], t['op'][0], t['inplace']) for t in case['steps']))
+    elif fam == 'sys':
+        ctx.count('sys:grid:%s(%s)' % (case['cls'], 'RegularCoords' if case['regular'] else 'SeparatedCoords'))
+        ctx.count('sys:generator-reads-coordinates-through:' + case['access'])
+        for e_ in info.get('entries', []):
+            ctx.count('sys:entry:' + e_)
+        sig = (fam, case['cls'], case['regular'], tuple(len(a) for a in case['axes']), tuple(case['ns']), case['stat'], case['access'])
     else:
         ctx.count('ss:stat:' + case['stat'])
         ctx.count('ss:coordinate-scale:' + scale_label(case.get('S', 1.0)))
@@ -1632,6 +1825,25 @@ def compare_model(ctx, out, case, cmps, base, had_bad):
                 return
             ctx.count('near-uns:ties', sum(1 for grp in groups if len(set(grp)) > 1))
             continue
+        if stream == 'subgrids':
+            ms = [(t.partition(':')[0], [parse_vals(a) for a in t.partition(':')[2].split(';')]) for t in body.split('|')]
+            good = len(ms) == len(got) and all(ga is not None for _, ga in got)
+            if good:
+                # the order in which the dithers are visited is not part of the property: compare as sets
+                ms = sorted(ms, key=lambda t: [float(a[0]) for a in t[1]])
+                got = sorted(got, key=lambda t: [a[0] for a in t[1]])
+            for (msys, maxes), (gsys, gaxes) in zip(ms, got):
+                if not good:
+                    break
+                good = msys == gsys and gaxes is not None and len(maxes) == len(gaxes)
+                for ma, ga in zip(maxes, gaxes if good else []):
+                    e = cmp_vals(ga, ma)
+                    good = good and e is not None and e <= TOL
+            ctx.count('sys:sub-grids-compared', len(got))
+            if not good:
+                ctx.disagree('C18 subgrids', {'case': case, 'model': resp[:400], 'impl': got})
+                return
+            continue
         if stream == 'supergrid':
             axes_m = [parse_vals(t) for t in body.split(';')]
             errs = [cmp_vals(g, w, scale=sc) for g, w, sc in zip(got, axes_m, opt['scales'])] if len(axes_m) == len(got) else [None]
@@ -1680,6 +1892,8 @@ def run(ctx):
     for k in range(n):
         fam = fams[k % 6]
         cases.append(GENS[fam](ctx.rng, big=(ctx.tier == 'thorough' and k % 3 == 0)))
+    for k in range(ctx.scale(300, 4000)):
+        cases.append(gen_sys(ctx.rng, big=(ctx.tier == 'thorough' and k % 3 == 0)))
     all_lines, index = [], []
     for case in cases:
         check_case(ctx, case, all_lines, index)
